@@ -35,12 +35,56 @@ def gen_value(rnd, depth=1):
     return ["expr", gen_spec(rnd, depth - 1)]
 
 
+def _operators():
+    from redun import expression
+    return sorted(expression._lazy_operation_registry)
+
+
+OPERATORS = _operators()
+
+
+def real_operator_pairs(ctx, rnd, where):
+    """Expressions built through the real operator overloads: forward and reflected forms and different operators on
+    the same operands must hash differently."""
+    import operator as op
+    from redun import task as _t  # noqa: F401
+    x = TaskExpression("ns.f", (rnd.randint(0, 5),), {})
+    v = rnd.choice([1, "s", [1, 2], (3,), 2.5])
+    forms = {
+        "x+v": lambda: x + v, "v+x": lambda: v + x, "x-v": lambda: x - v, "v-x": lambda: v - x,
+        "x*v": lambda: x * v, "v*x": lambda: v * x, "x/v": lambda: x / v, "v/x": lambda: v / x,
+        "x<v": lambda: x < v, "x<=v": lambda: x <= v, "x>v": lambda: x > v, "x>=v": lambda: x >= v,
+        "x==v": lambda: x == v, "x!=v": lambda: x != v, "x&v": lambda: x & v, "v&x": lambda: v & x,
+        "x|v": lambda: x | v, "v|x": lambda: v | x, "x[v]": lambda: x[v] if not isinstance(v, list) else x[0],
+        "x(v)": lambda: x(v), "x.a": lambda: x.a,
+    }
+    built = {}
+    for name, fn in forms.items():
+        try:
+            built[name] = fn()
+        except TypeError:
+            continue
+    ctx.ev()
+    names = sorted(built)
+    for i, a in enumerate(names):
+        for b in names[i + 1:]:
+            ctx.count("pairs_compared")
+            ctx.count("field_real-operator-forms")
+            ctx.nontrivial(["real-operator", a, b, repr(v)])
+            if built[a].get_hash() == built[b].get_hash():
+                ctx.violation("unclassified", "lazy expressions %s and %s (x a task call, v=%r) have the same hash" % (a, b, v),
+                              {"forms": [a, b], "v": repr(v), "where": where})
+
+
 def gen_spec(rnd, depth=2):
     kind = rnd.choice(["task", "task", "sched", "simple", "value"])
     if kind == "value":
         return {"kind": "value", "value": rnd.choice([0, 1, "x", [1, 2], {"a": 1}])}
+    names = ["ns.f", "ns.g", "add", "getitem", "redun.cond", "redun.catch"]
+    if kind == "simple" and rnd.random() < 0.7:
+        names = OPERATORS
     spec = {"kind": kind,
-            "name": rnd.choice(["ns.f", "ns.g", "add", "getitem", "redun.cond", "redun.catch"]),
+            "name": rnd.choice(names),
             "args": [gen_value(rnd, depth) for _ in range(rnd.randint(0, 3))],
             "kwargs": {k: gen_value(rnd, depth) for k in rnd.sample(["x", "y", "z"], rnd.randint(0, 2))}}
     if kind in ("task", "sched"):
@@ -104,6 +148,10 @@ def variants(rnd, spec):
     if k == "simple":
         s2 = dict(spec, kind="task", options={}, export=[], length=None)
         out.append(("kind", s2))
+        # every other lazy operation on the same operands is a different call (x + v is not v + x, x < v is not x <= v)
+        for op in OPERATORS:
+            if op != spec["name"]:
+                out.append(("operator", dict(spec, name=op)))
     return out
 
 
@@ -181,6 +229,8 @@ def shard(ctx, n, sub):
         run_case(ctx, rnd, spec, {"seed": ctx.seed, "sub": sub, "i": i})
         if i < 2:
             ctx.sample({"spec": spec, "repr": repr(build(spec))[:200]})
+        if i % 10 == 0:
+            real_operator_pairs(ctx, rnd, {"seed": ctx.seed, "sub": sub, "i": i})
     # end-to-end consequence: expressions differing only in call-time options under one parent job each get a job
     backend = engine.new_backend()
     inc = wf_tasks.TASKS["inc"]
